@@ -9,6 +9,8 @@ demo exits 0 without and non-zero with it) - unconfirmed ones are reported by th
 import glob, json, os, re, shutil, subprocess, sys
 
 HERE = os.path.dirname(os.path.dirname(os.path.abspath(__file__)))
+# triage scripts that print their observation without an exit code (or need an interactive reading): no regression mutant is made from them
+SKIP = {"C04-D8", "C04-D9", "C06-D14", "C06-D6", "C12-D61", "C13-D13", "C15-D4", "C15-D5", "C17-D32", "C17-D67", "C20-D77"}
 
 
 def sh(cmd, cwd=None):
@@ -29,8 +31,9 @@ def main():
         tri = [p for p in glob.glob(os.path.join(HERE, "notes", "triage", "*.py")) if re.match(r"[dD]0*%s(_|\.|[a-z]?_)" % num, os.path.basename(p))]
         sid = "%s-D%s" % (e["property"], num)
         d = os.path.join(HERE, "seeded", sid)
-        if os.path.isdir(d) or not tri:
+        if os.path.isdir(d) or not tri or sid in SKIP:
             continue
+        tri.sort(key=lambda p: (not os.path.basename(p).startswith('D%s_' % num), p))
         wt = "/tmp/regmut_%s" % commit
         sh(["git", "-C", "/repo", "worktree", "remove", "--force", wt])
         rc, out = sh(["git", "-C", "/repo", "worktree", "add", "-q", "--detach", wt, "HEAD"])
